@@ -225,15 +225,27 @@ def run_stream(ctx, vs, integs, entries):
                                      "events_in_complete_frames": complete, "producer": vs["producer"]} if nt else None)
 
 
+def child_case(ctx, rng, k):
+    _one(ctx, rng)
+
+
 def run_shard(ctx):
+    if ctx.shard == 2 % ctx.nshards:
+        # a slice again in an interpreter started with -O: reporting a truncated stream must not hinge on an assert
+        from .. import childopt
+        childopt.run(ctx, ID, 12 if ctx.tier == "quick" else 200, timeout=900)
     i = 0
     while not ctx.out_of_time():
-        rng = ctx.rng(i)
+        _one(ctx, ctx.rng(i))
         i += 1
+
+
+def _one(ctx, rng):
+    if True:
         mode = "rdf11" if rng.random() < .5 else "generic"
         vs = workloads.valid_stream(rng, mode=mode, delimited=True, max_len=rng.choice([6, 12, 25]), min_frames=2)
         if vs is None or len(vs["data"]) > (1500 if ctx.tier == "quick" else 4000):
-            continue
+            return
         integs = ["generic"] if mode == "generic" else ["generic", "rdflib"]
         entries = ["flat"] if ctx.tier == "quick" and rng.random() < .7 else ["flat", "grouped"]
         if rng.random() < .4:
